@@ -234,7 +234,7 @@ class Path:
         return [s for s in self.events if callee_matches(s.term, pat)]
 
 
-def enumerate_paths(body, facts=None, start=0, max_paths=50000, stop_calls=None):
+def enumerate_paths(body, facts=None, start=0, max_paths=50000, stop_calls=None, max_visits=1):
     """All acyclic paths start -> return (or -> a call in stop_calls)."""
     from .facts import callee_matches
     out = []
@@ -243,7 +243,7 @@ def enumerate_paths(body, facts=None, start=0, max_paths=50000, stop_calls=None)
     def rec(bb, env, conds, events, blocks, last0):
         if len(out) > max_paths:
             raise RuntimeError('too many paths')
-        if bb in blocks:
+        if blocks.count(bb) >= max_visits:
             p = Path()
             p.blocks = blocks + [bb]
             p.conds = conds
